@@ -104,7 +104,12 @@ pub struct Exec<'a> {
 	/// (commit index (1-based), record id) for commits logged since the last open.
 	pub commit_records: Vec<(usize, u64)>,
 	pub commits_at_open: usize,
+	/// ids of all records logged since the last open, in order; the first `enacted_count` of
+	/// them have been enacted.
+	pub logged_ids: Vec<u64>,
+	pub enacted_count: usize,
 	quiet_open: bool,
+	pub last_open_error: String,
 	track_records: bool,
 	pub locks_used: bool,
 	/// Keys written by transactions that were committed while dereferencing a held tree: the
@@ -114,6 +119,7 @@ pub struct Exec<'a> {
 	/// Tree columns for which a crash lost a commit that had claimed value-table slots.
 	pub claimed_leak: std::collections::HashSet<u8>,
 	pub claim_ctx: bool,
+	pub commit_lost_in_failed_step: bool,
 	/// every accepted transaction, index i holds commit i+1
 	pub tx_log: Vec<Vec<(u8, TxOp)>>,
 	pub leak_expected: bool,
@@ -223,13 +229,17 @@ impl<'a> Exec<'a> {
 			log_records: Vec::new(),
 			commit_records: Vec::new(),
 			commits_at_open: 0,
+			logged_ids: Vec::new(),
+			enacted_count: 0,
 			quiet_open: false,
+			last_open_error: String::new(),
 			track_records: cfg.scenario == "logfuzz",
 			locks_used: false,
 			deferral_victims: Default::default(),
 			victim_ctx: false,
 			claimed_leak: Default::default(),
 			claim_ctx: false,
+			commit_lost_in_failed_step: false,
 			tx_log: Vec::new(),
 			leak_expected: false,
 			deferral_happened: false,
@@ -304,12 +314,16 @@ impl<'a> Exec<'a> {
 			Ok(db) => {
 				self.db = Some(db);
 				self.log_records.clear();
+				self.logged_ids.clear();
+				self.enacted_count = 0;
+				self.commit_lost_in_failed_step = false;
 				self.commit_keys.clear();
 				self.commit_records.clear();
 				self.commits_at_open = self.n();
 				true
 			},
 			Err(e) => {
+				self.last_open_error = format!("{e}");
 				if !self.quiet_open {
 					let p = if self.crashed_once { "C02" } else { self.map_prop };
 					self.violation(p, "open-failed", format!("open returned {e}"));
@@ -372,6 +386,7 @@ impl<'a> Exec<'a> {
 				});
 				if let Some(id) = id {
 					self.log_records.push(LogRec { file: name.clone(), start: old, end: *len, record_id: id, live: true });
+					self.logged_ids.push(id);
 					if is_commit_step && queued_before > 0 && self.counts().0 + 1 == queued_before {
 						let commit_idx = self.n() - queued_before + 1;
 						self.commit_records.push((commit_idx, id));
@@ -573,7 +588,8 @@ impl<'a> Exec<'a> {
 		let got = self.db().get(col, &key);
 		let got_size = self.db().get_size(col, &key);
 		self.stats.reads_checked += 1;
-		let all_logged = self.counts().0 == 0;
+		// a commit taken off the queue by a process_commits call that failed is never logged
+		let all_logged = self.counts().0 == 0 && !self.commit_lost_in_failed_step;
 		let victim = self.deferral_victims.contains(&(col, k));
 		let prop = if victim { "C11" } else { self.map_prop };
 		if victim {
@@ -911,6 +927,9 @@ impl<'a> Exec<'a> {
 			Stage::ProcessCommits => {
 				let q0 = self.counts().0;
 				let r = self.db().verif_process_commits();
+				if r.is_err() && self.counts().0 < q0 {
+					self.commit_lost_in_failed_step = true;
+				}
 				if let Ok(true) = r {
 					if q0 > 0 && self.counts().0 == q0 {
 						// popped and re-queued: the commit was postponed (tree reader lock)
@@ -952,6 +971,7 @@ impl<'a> Exec<'a> {
 					let r = self.db().verif_enact_one();
 					if let Ok(true) = r {
 						self.stats.probe("records_enacted");
+						self.enacted_count += 1;
 					}
 					r
 				} else {
@@ -961,6 +981,7 @@ impl<'a> Exec<'a> {
 							Ok(true) => {
 								any = true;
 								self.stats.probe("records_enacted");
+								self.enacted_count += 1;
 							},
 							Ok(false) => break Ok(any),
 							Err(e) => break Err(e),
@@ -1332,6 +1353,7 @@ impl<'a> Exec<'a> {
 			}
 		}
 		self.tx_log.truncate(j);
+		self.commits_at_open = j;
 		self.hist.truncate(j + 1);
 		self.cur = (*self.hist[j]).clone();
 		self.n_synced = j;
@@ -1962,6 +1984,22 @@ impl<'a> Exec<'a> {
 		self.n_synced = 0;
 		self.commits_at_open = 0;
 		self.commit_records.clear();
+	}
+	/// Id of the last record the tables hold (0: none since the last open).
+	pub fn last_enacted_id(&self) -> u64 {
+		if self.enacted_count == 0 {
+			0
+		} else {
+			self.logged_ids.get(self.enacted_count - 1).cloned().unwrap_or(u64::MAX)
+		}
+	}
+	/// After a panic inside parity-db: never run its destructor.
+	pub fn leak_db(&mut self) {
+		for it in self.iters.iter_mut() {
+			std::mem::forget(it.take());
+		}
+		crate::treeops::forget_all(self);
+		std::mem::forget(self.db.take());
 	}
 	pub fn mark_restart(&mut self) {
 		self.n_synced = self.n();
